@@ -23,8 +23,9 @@ import (
 // crash or hang inside the real code cannot take the judge down.
 const childEnv = "VERIF_L3_CHILD"
 
-// childBound is the watchdog on one child (nominal: a few seconds).
-const childBound = 12 * time.Minute
+// childBound is the watchdog on one child (nominal: one to three seconds; a
+// child gives up on its own when a single wait exceeds flushBound).
+const childBound = 6 * time.Minute
 
 func init() {
 	specFile := os.Getenv(childEnv)
